@@ -165,6 +165,16 @@ def generate(rng, tier):
         ops = "N" if exp else "NtNtNtNtN"
         lines = ["R %s %s - %s %s" % (sp.s(), E.cfg_str(allow=a, maxs=lim), data.hex() or "-", ops) for a in range(8)]
         cases.append(Case(lines, fault, {"exp": exp, "fault": fault}))
+    # a known-size master ending inside the header of an unknown-size descendant master: the child is oversized (declared size 0 in the
+    # error: it has none) for every mask that does not tolerate oversized children
+    for k in range(300 * TH if thorough else 60):
+        sp = rng.choice(specs)
+        r = make_straddle(rng, sp)
+        if r is None or not (1 <= r[2] < r[3]):
+            continue
+        exp = "E:over:%d:%x:0" % (r[1], r[4])
+        lines = ["R %s %s - %s N" % (sp.s(), E.cfg_str(allow=a), r[0].hex()) for a in range(8)]
+        cases.append(Case(lines, "straddle", {"exp": exp, "fault": "over"}))
     # default limit stays in force until changed: a header declaring 4e9+1 bytes (no payload present)
     sp = E.base_spec()
     for size, lim, want in ((4000000001, "def", "E:size:2:4102:4000000001"), (4000000001, "5000000000", None), (7, "6", "E:size:2:4102:7"), (6, "6", None)):
